@@ -103,3 +103,91 @@ Theorem cell_widths_bar_subset :
 Proof. exact TableRender.cell_widths_bar_subset. Qed.
 Print Assumptions cell_widths_bar_subset.
 
+
+(* DOM level (Proofs/DomBlocks.v): a row is the cells of its td/th children in order, a td/th
+   always gives a cell (also without content), nothing else does; the colspan attribute *)
+From H2T Require Import Base Tagged Wrap Sub Css Dom Render Api CssParse Proofs.CssTotal Proofs.WrapInv Proofs.RenderWidth Proofs.Conserve Proofs.Footnotes Proofs.AnnBalance Proofs.RenderConserve Proofs.OptionRel Proofs.Compose Proofs.RenderTotal Proofs.FragStream Proofs.SimRel Proofs.Prune Proofs.DomBlocks.
+
+Theorem process_tr :
+  forall (sd : styledata) (udc : bool) (inl : list (text * text) -> res (list styledecl)) 
+         (name : text) (attrs : list (text * text)) (kids : list node) (p : list anc) 
+         (idx : Z) (inls : list styledecl) (cs : list rnode),
+       (if udc then inl attrs else Ok []) = Ok inls ->
+       hidden_style (computed_style sd ({| a_name := name; a_attrs := attrs; a_idx := idx |} :: p) inls) =
+       false ->
+       process_kids sd udc inl kids ({| a_name := name; a_attrs := attrs; a_idx := idx |} :: p) 1 = Ok cs ->
+       cps name = Nm.tr ->
+       process sd udc inl (NElem true name attrs kids) p idx =
+       Ok
+         (finish (computed_style sd ({| a_name := name; a_attrs := attrs; a_idx := idx |} :: p) inls) true
+            name attrs
+            (Some
+               (RN
+                  (ITableRow
+                     (RRow (cells_of cs)
+                        (computed_style sd ({| a_name := name; a_attrs := attrs; a_idx := idx |} :: p) inls)))
+                  (computed_style sd ({| a_name := name; a_attrs := attrs; a_idx := idx |} :: p) inls)))).
+Proof. exact DomBlocks.process_tr. Qed.
+Print Assumptions process_tr.
+
+Theorem process_td :
+  forall (sd : styledata) (udc : bool) (inl : list (text * text) -> res (list styledecl)) 
+         (name : text) (attrs : list (text * text)) (kids : list node) (p : list anc) 
+         (idx : Z) (inls : list styledecl) (cs : list rnode),
+       (if udc then inl attrs else Ok []) = Ok inls ->
+       hidden_style (computed_style sd ({| a_name := name; a_attrs := attrs; a_idx := idx |} :: p) inls) =
+       false ->
+       process_kids sd udc inl kids ({| a_name := name; a_attrs := attrs; a_idx := idx |} :: p) 1 = Ok cs ->
+       cps name = Nm.td \/ cps name = Nm.th ->
+       process sd udc inl (NElem true name attrs kids) p idx =
+       Ok
+         (finish (computed_style sd ({| a_name := name; a_attrs := attrs; a_idx := idx |} :: p) inls) true
+            name attrs
+            (Some
+               (RN
+                  (ITableCell
+                     (RCell (td_colspan attrs) cs
+                        (computed_style sd ({| a_name := name; a_attrs := attrs; a_idx := idx |} :: p) inls)))
+                  (computed_style sd ({| a_name := name; a_attrs := attrs; a_idx := idx |} :: p) inls)))).
+Proof. exact DomBlocks.process_td. Qed.
+Print Assumptions process_td.
+
+Theorem tdth_gives_cell :
+  forall (sd : styledata) (udc : bool) (inl : list (text * text) -> res (list styledecl)) 
+         (name : text) (attrs : list (text * text)) (kids : list node) (p : list anc) 
+         (i : Z) (nd : rnode),
+       names [[116; 104]; [116; 100]] name = true ->
+       process sd udc inl (NElem true name attrs kids) p i = Ok (Some nd) ->
+       exists (k : list rnode) (s : cstyle), rn_info nd = ITableCell (RCell (td_colspan attrs) k s).
+Proof. exact DomBlocks.tdth_gives_cell. Qed.
+Print Assumptions tdth_gives_cell.
+
+Theorem cell_only_from_tdth :
+  forall (sd : styledata) (udc : bool) (inl : list (text * text) -> res (list styledecl)) 
+         (k : node) (p : list anc) (i : Z) (nd : rnode),
+       process sd udc inl k p i = Ok (Some nd) -> is_cell nd = true -> is_tdth k = true.
+Proof. exact DomBlocks.cell_only_from_tdth. Qed.
+Print Assumptions cell_only_from_tdth.
+
+Theorem row_cell_count :
+  forall (sd : styledata) (udc : bool) (inl : list (text * text) -> res (list styledecl))
+         (kids : list node) (me : list anc) (i : Z) (cs : list rnode),
+       process_kids sd udc inl kids me i = Ok cs -> length (cells_of cs) = count_cells sd udc inl me kids i.
+Proof. exact DomBlocks.row_cell_count. Qed.
+Print Assumptions row_cell_count.
+
+Theorem td_colspan_spec :
+  forall attrs : list (text * text),
+       td_colspan attrs =
+       match find (fun kv : text * text => attr_is (fst kv) s_colspan) (rev attrs) with
+       | Some kv => colspan_val (snd kv)
+       | None => 1
+       end.
+Proof. exact DomBlocks.td_colspan_spec. Qed.
+Print Assumptions td_colspan_spec.
+
+Theorem td_colspan_bound :
+  forall attrs : list (text * text), td_colspan attrs <= 1000.
+Proof. exact DomBlocks.td_colspan_bound. Qed.
+Print Assumptions td_colspan_bound.
+
